@@ -170,3 +170,140 @@ def shape(pieces):
         else:
             out.append(p[1])
     return "".join(out) if out else '""'
+
+
+# ---------------------------------------------------------------------------------------------
+# Interprocedural expansion of RAW pieces (callee return values, parameters at all call sites)
+
+def _returned_string_origins(ctx):
+    og = set()
+    for b in ctx.body.blocks:
+        if b.cleanup:
+            continue
+        for s in b.stmts:
+            if s.k == "assign" and s.place.local == 0 and not s.place.proj:
+                if s.rv.k == "agg" and s.rv.j.get("variant") in ("Some", "Ok"):
+                    og |= ctx.origins.of_operand(s.rv.ops[0])
+                elif s.rv.k == "use":
+                    og |= ctx.origins.of_operand(s.rv.ops[0])
+        t = b.term
+        if t is not None and t.k == "call" and t.dest.local == 0 and not t.dest.proj and \
+                not t.is_call_to("core::ops::try_trait::FromResidual::from_residual"):
+            og |= ctx.origins.of_local(0)
+    return set(o for o in og if not (o.kind == "call" and o.extra is not None and
+                                     o.extra.is_call_to("core::ops::try_trait::FromResidual::from_residual")))
+
+
+def _param_index(body, name):
+    for n, p, a in body.vdi:
+        if n == name and not p.proj and 1 <= p.local <= body.argc:
+            return p.local - 1
+    return None
+
+
+def _fn_of(path):
+    return path[:-len("::{closure#0}")] if path.endswith("::{closure#0}") else path
+
+
+def _callers(prog, fn_path):
+    """(ctx, term) of every call of fn_path in the member crates"""
+    from .rules.common import ctx_of
+    out = []
+    for b in prog.bodies.values():
+        if "/.cargo/" in b.file:
+            continue
+        for bb, t in b.calls():
+            if t.k == "call" and (t.resolved == fn_path or t.callee == fn_path):
+                out.append((ctx_of(prog, b.path), bb, t))
+    return out
+
+
+def expand(prog, ctx, pieces, depth=4, _stack=()):
+    """all fully expanded variants of a template: list of piece lists"""
+    from .rules.common import ctx_of, async_body
+    if depth < 0:
+        return [pieces]
+    variants = [[]]
+    for pc in pieces:
+        if pc[0] == "lit" or pc[1] != "RAW" or not pc[2]:
+            variants = [v + [pc] for v in variants]
+            continue
+        alts = []
+        for o in pc[2]:
+            sub = None
+            if o.kind == "call" and o.extra is not None and not o.fields:
+                t = o.extra
+                callee = t.resolved or t.callee
+                targets = []
+                if callee and prog.body(callee) is not None:
+                    targets = [callee]
+                elif t.is_call_to("tough::schema::Role::filename"):
+                    targets = [p for p in prog.bodies if p.endswith("::filename") and " as tough::schema::Role>" in p]
+                for tp in targets:
+                    if tp in _stack:
+                        continue
+                    cctx = async_body(prog, tp) or ctx_of(prog, tp)
+                    if cctx is None:
+                        continue
+                    for ro in _returned_string_origins(cctx):
+                        p2, _ = template_of_origin(cctx, ro)
+                        sub = (sub or []) + expand(prog, cctx, p2, depth - 1, _stack + (tp,))
+            elif o.kind in ("upvar", "param") and not o.fields:
+                fn = _fn_of(ctx.body.path)
+                fb = prog.body(fn)
+                idx = _param_index(fb, o.key[1]) if fb is not None else None
+                if idx is not None and fn not in _stack:
+                    for cctx, bb, t in _callers(prog, fn):
+                        if idx < len(t.args):
+                            for p2, _ in templates_of(cctx, t.args[idx]):
+                                sub = (sub or []) + expand(prog, cctx, p2, depth - 1, _stack + (fn,))
+            if sub is None:
+                sub = [[("val", classify_deep(ctx, frozenset([o])), frozenset([o]))]]
+            alts.extend(sub)
+        variants = [v + a for v in variants for a in alts]
+    return variants
+
+
+def classify_deep(ctx, origins):
+    k = classify(ctx, origins)
+    if k != "RAW":
+        return k
+    from .rules.common import deep_origins
+    for o in origins:
+        if o.kind == "call" and o.extra is not None:
+            for a in o.extra.args:
+                for x in ctx.origins.of_operand(a):
+                    pass
+            deep = set()
+            work = [o]
+            seen = set()
+            d = 0
+            while work and d < 40:
+                d += 1
+                c = work.pop()
+                if c.ident() in seen:
+                    continue
+                seen.add(c.ident())
+                deep.add(c)
+                if c.kind == "call" and c.extra is not None:
+                    for a in c.extra.args:
+                        work.extend(ctx.origins.of_operand(a))
+                elif c.kind == "agg" and c.extra is not None and hasattr(c.extra, "rv"):
+                    for a in c.extra.rv.ops:
+                        work.extend(ctx.origins.of_operand(a))
+            names = " ".join(x.key[1] for x in deep if x.kind == "call")
+            if any(x.fields[-1:] == ("version",) for x in deep) and ("Range" in names or "range" in names or "rev" in names):
+                return "VERSION"
+        if o.fields[-1:] == ("name",) or (o.kind in ("param", "upvar") and o.key[1] in ("name", "role", "role_name", "targets_role")):
+            return "ROLENAME"
+    return "RAW"
+
+
+def sink_templates(prog, ctx, operand):
+    """fully expanded shapes reaching a file-name sink: list of (shape string, pieces)"""
+    out = []
+    for pieces, _ in templates_of(ctx, operand):
+        for v in expand(prog, ctx, pieces):
+            v2 = [pc if pc[0] == "lit" or pc[1] != "RAW" else ("val", classify_deep(ctx, pc[2]), pc[2]) for pc in v]
+            out.append((shape(v2), v2))
+    return out
